@@ -29,7 +29,7 @@ const (
 	TContinue
 	TReturn
 	TReturnValue
-	TDup // construct the child once, use it twice: Combine(c, c)
+	TDup         // construct the child once, use it twice: Combine(c, c)
 	TBreakable   // seq.Breakable(A): a Break raised inside A ends A normally
 	TContinuable // seq.Continuable(A): a Continue raised inside A ends A normally
 	nTK
